@@ -16,7 +16,8 @@ EXTENDS Integers, Sequences
 CONSTANTS W,        \* word width of the model
           GBug      \* "none" | design mutants: "signed_read" (reader reads start/step signed, no wrap), "swap_steps" (il/xl step
                     \*   fields exchanged), "trunc_interval" (interval stored in ms for a post-0.1.6 file), "crop_origin" (cropped
-                    \*   file keeps the source origin), "count_field" (structured flag from the grid although the count field is present)
+                    \*   file keeps the source origin), "count_field" (structured flag from the grid although the count field is present),
+                    \*   "crop_trunc" (a crop records its first sample only in the whole-millisecond word: the code before fa3b7fb)
 
 M  == 2 ^ W
 Lo == 0 - 2 ^ (W - 1)
@@ -45,7 +46,9 @@ EncGeom(G) ==
      xl |-> EncAxis(IF GBug = "swap_steps" THEN [G.xl EXCEPT !.step = G.il.step] ELSE G.xl),
      z0 |-> PackSigned(G.z0),
      dz |-> IF (G.post016 \/ G.dim = 2) /\ GBug # "trunc_interval" THEN G.dz ELSE G.dz \div 1000,
-     nz |-> G.nz, ntr |-> G.ntr, post016 |-> G.post016, post021 |-> G.post021, dim |-> G.dim]
+     nz |-> G.nz, ntr |-> G.ntr, post016 |-> G.post016, post021 |-> G.post021, dim |-> G.dim,
+     \* float64 sample-axis fields (bytes 84-99): unused by the SEG-Y / NumPy writers; readers prefer them when the interval is non-zero
+     fused |-> FALSE, fz0us |-> 0]
 
 \* what a reader reports: axes, sample axis as <<start ms, interval in microseconds>> (exact), trace count, structured
 DecGeom(H) ==
@@ -54,12 +57,13 @@ DecGeom(H) ==
         ntr == IF H.post021 /\ GBug # "count_field" THEN H.ntr ELSE ni * nx
     IN  [il |-> DecAxis(H.il), xl |-> DecAxis(H.xl),
          z0 |-> WrapSigned(H.z0), dz_us |-> IF H.post016 \/ H.dim = 2 THEN H.dz ELSE H.dz * 1000, nz |-> H.nz,
+         z0us |-> IF H.fused THEN H.fz0us ELSE WrapSigned(H.z0) * 1000,        \* the first sample time a reader reports, in microseconds
          ntr |-> ntr, structured |-> (H.dim = 3 /\ ntr = ni * nx)]
 
 Preserved(G) ==
     LET R == DecGeom(EncGeom(G))
     IN  /\ R.il = Axis(G.il) /\ R.xl = Axis(G.xl)
-        /\ R.z0 = G.z0 /\ R.nz = G.nz
+        /\ R.z0 = G.z0 /\ R.z0us = G.z0 * 1000 /\ R.nz = G.nz
         /\ (G.post016 \/ G.dz % 1000 = 0) => R.dz_us = G.dz
         /\ R.ntr = G.ntr
         /\ R.structured = (G.ntr = G.il.count * G.xl.count)
@@ -76,8 +80,11 @@ CropGeom(H, box) ==
         keep == GBug = "crop_origin"
     IN  [H EXCEPT !.il = [start |-> IF keep THEN H.il.start ELSE PackSigned(R.il[box.i0 + 1]), step |-> H.il.step, count |-> box.i1 - box.i0],
                   !.xl = [start |-> IF keep THEN H.xl.start ELSE PackSigned(R.xl[box.x0 + 1]), step |-> H.xl.step, count |-> box.x1 - box.x0],
-                  \* the origin word is whole milliseconds: the first kept sample time is truncated to it
-                  !.z0 = PackSigned(R.z0 + (box.z0 * R.dz_us) \div 1000),
+                  \* the origin word is whole milliseconds: the first kept sample time is truncated to it, and recorded exactly in
+                  \* the float64 fields when it is not a whole millisecond (or when the source already uses them)
+                  !.z0 = PackSigned((R.z0us + box.z0 * R.dz_us) \div 1000),
+                  !.fused = H.fused \/ (GBug # "crop_trunc" /\ (R.z0us + box.z0 * R.dz_us) % 1000 # 0),
+                  !.fz0us = R.z0us + box.z0 * R.dz_us,
                   !.nz = box.z1 - box.z0,
                   !.ntr = (box.i1 - box.i0) * (box.x1 - box.x0)]
 
@@ -87,7 +94,7 @@ CropPreserves(G, box) ==
         C == DecGeom(CropGeom(H, box))
     IN  /\ C.il = SubSeqOf(S.il, box.i0, box.i1) /\ C.xl = SubSeqOf(S.xl, box.x0, box.x1)
         /\ C.nz = box.z1 - box.z0 /\ C.dz_us = S.dz_us
-        \* the sample origin is representable only when the first kept sample falls on a whole millisecond
-        /\ ((box.z0 * S.dz_us) % 1000 = 0 /\ InRange(S.z0 + (box.z0 * S.dz_us) \div 1000)) => C.z0 * 1000 = S.z0 * 1000 + box.z0 * S.dz_us
+        \* the first sample of the crop is the source's sample at the first kept index, exactly
+        /\ InRange((S.z0us + box.z0 * S.dz_us) \div 1000) => C.z0us = S.z0us + box.z0 * S.dz_us
         /\ C.structured /\ C.ntr = (box.i1 - box.i0) * (box.x1 - box.x0)
 =============================================================================
